@@ -664,6 +664,11 @@ pub enum RefName {
 
 /// RFC 1035 4.1.4 name reader with explicit budgets; flat form into `out`.
 pub fn ref_read_name_b(msg: &[u8], pos: usize, out: &mut [u8; 32], labels: usize, hops: usize) -> RefName {
+    ref_read_name_bl(msg, pos, out, labels, hops, 63)
+}
+
+/// As ref_read_name_b with a budget on the content length of each label.
+pub fn ref_read_name_bl(msg: &[u8], pos: usize, out: &mut [u8; 32], labels: usize, hops: usize, maxlabel: usize) -> RefName {
     let mut p = pos;
     let mut o = 0usize;
     let mut after: Option<usize> = None;
@@ -702,7 +707,7 @@ pub fn ref_read_name_b(msg: &[u8], pos: usize, out: &mut [u8; 32], labels: usize
         if p + 1 + b > msg.len() {
             return RefName::Malformed;
         }
-        if b != 0 && nl >= labels {
+        if b != 0 && (nl >= labels || b > maxlabel) {
             return RefName::Budget;
         }
         if o + 1 + b > 32 {
